@@ -5,8 +5,12 @@ Import ListNotations.
 Open Scope string_scope.
 
 Definition gen_dispatch_arms : list (atype * string * bool * bool) := [(JoinGame, "self._process_join_game_action", true, true); (QuitGame, "self._process_quit_game_action", true, false); (ResetGame, "self._process_reset_game_action", true, true); (ExfiltrateData, "self._process_game_action", true, true); (FindData, "self._process_game_action", true, true); (ScanNetwork, "self._process_game_action", true, true); (FindServices, "self._process_game_action", true, true); (ExploitService, "self._process_game_action", true, true); (BlockIP, "self._process_game_action", true, true)].
+Definition gen_required_params : list (atype * list (string * string)) := [(ScanNetwork, [("source_host", "IP"); ("target_network", "Network")]); (FindServices, [("source_host", "IP"); ("target_host", "IP")]); (FindData, [("source_host", "IP"); ("target_host", "IP")]); (ExploitService, [("source_host", "IP"); ("target_host", "IP"); ("target_service", "Service")]); (ExfiltrateData, [("source_host", "IP"); ("target_host", "IP"); ("data", "Data")]); (BlockIP, [("source_host", "IP"); ("target_host", "IP"); ("blocked_host", "IP")])].
 Definition gen_default : string := "reply_bad_request".
 Definition gen_parse_failure : string := "reply_bad_request_and_continue".
+Definition gen_after_parse : string := "match_follows_try".
+Definition gen_validation_shape : string := "isinstance_of_get_hashable_returns_reason_none_when_valid".
+Definition gen_validation_order : string := "member_validate_refuse_then_effects".
 Definition gen_conn_failure : string := "forward_quit".
 Definition gen_conn_cleanup : string := "decrement_pop_queue_close".
 Definition gen_admission : string := "reject_at_limit".
